@@ -48,10 +48,13 @@ structure TState where
   lastOut : BitVec 64     -- last_fct_out
   lastHead : Nat          -- last_head (registry information, written by rcu_defer_barrier)
   q : Array (BitVec 64)   -- `#[]` = NULL
-  queued : List Call      -- ghost
+  queuedR : List Call     -- ghost: calls ever queued by this thread, NEWEST FIRST (see `TState.queued`)
   invoked : List Invk     -- ghost
   snapQ : Nat             -- ghost: `queued.length` at the snapshot of the barrier in progress
   deriving Repr, DecidableEq
+
+/-- ghost: the calls ever queued by the thread, in queueing order -/
+def TState.queued (x : TState) : List Call := x.queuedR.reverse
 
 /-- who holds `rcu_defer_mutex` across a grace period -/
 inductive Holder
@@ -82,7 +85,7 @@ structure State where
 initial value is 0; the generalisation covers counters that have run for a long time). -/
 def init (h0 : Nat → Nat) : State :=
   { th := fun t => { head := h0 t, tail := h0 t, lastIn := 0#64, lastOut := 0#64, lastHead := 0,
-                     q := #[], queued := [], invoked := [], snapQ := 0 },
+                     q := #[], queuedR := [], invoked := [], snapQ := 0 },
     registry := [], lock := none, clock := 1, cs := fun _ => none }
 
 inductive Abort
@@ -126,7 +129,7 @@ def needFlush (c : Cfg) (x : TState) : Bool := decide (c.size - 2 ≤ x.head - x
 def enqT (c : Cfg) (x : TState) (f p : BitVec 64) (now : Nat) : TState × List (BitVec 64) :=
   let e := enc1 x.lastIn f p
   ({ x with q := writeWords c x.q x.head e.1, head := x.head + e.1.length, lastIn := e.2,
-            queued := x.queued ++ [⟨f, p, now⟩] }, e.1)
+            queuedR := ⟨f, p, now⟩ :: x.queuedR }, e.1)
 
 /-- `rcu_defer_barrier_queue(x, snap)` -/
 def runQ (c : Cfg) (x : TState) (snap now : Nat) : Option (TState × List (BitVec 64 × BitVec 64)) :=
@@ -144,7 +147,7 @@ def runT (c : Cfg) (x : TState) (snap now : Nat) : TState × List (BitVec 64 × 
 
 /-- `index->last_head = index->head` for every registered queue -/
 def snapTh (th : Nat → TState) (registry : List Nat) : Nat → TState := fun t =>
-  if t ∈ registry then { th t with lastHead := (th t).head, snapQ := (th t).queued.length } else th t
+  if t ∈ registry then { th t with lastHead := (th t).head, snapQ := (th t).queuedR.length } else th t
 
 /-- `num_items` of `rcu_defer_barrier()` -/
 def numItems (th : Nat → TState) (registry : List Nat) : Nat :=
@@ -175,7 +178,7 @@ def step (c : Cfg) (n : Nat) (s : State) : Op → Option (State × Out)
     if x.head = x.tail then
       some (tick { s with th := upd s.th t (unregT c x), registry := reg' }, .unregistered [] reg'.isEmpty)
     else
-      some (tick { s with th := upd s.th t { x with snapQ := x.queued.length }, registry := reg',
+      some (tick { s with th := upd s.th t { x with snapQ := x.queuedR.length }, registry := reg',
                           lock := some ⟨.unreg t x.head, s.clock, false⟩ }, .snapshot)
   | .unregEnd t =>
     match s.lock with
@@ -208,7 +211,7 @@ def step (c : Cfg) (n : Nat) (s : State) : Op → Option (State × Out)
     if s.lock.isSome then none else
     let x := s.th t
     if x.head = x.tail then some (tick s, .skipped .noItems)
-    else some (tick { s with th := upd s.th t { x with snapQ := x.queued.length },
+    else some (tick { s with th := upd s.th t { x with snapQ := x.queuedR.length },
                              lock := some ⟨.flush t x.head, s.clock, false⟩ }, .snapshot)
   | .flushRun t =>
     match s.lock with
